@@ -112,8 +112,8 @@ def family(m: Any) -> Optional[str]:
     return None
 
 
-def components(m: Any, path: str = "") -> List[Tuple[str, Any, str, str]]:
-    """(path, module, family, class chain) for the module and every evolvable sub-module.
+def components(m: Any, path: str = "") -> List[Tuple[str, Any, str, str, List[str]]]:
+    """(path, module, family, class chain, enabled own methods) for the module and every evolvable sub-module.
 
     Wrappers are transparent: the component at a wrapper's path is the wrapped module, the class chain
     keeps the wrapper's name so that sites can tell ``EvolvableDistribution>EvolvableMLP`` from a bare MLP.
@@ -124,11 +124,15 @@ def components(m: Any, path: str = "") -> List[Tuple[str, Any, str, str]]:
     fam = family(m)
     chain = type(m).__name__
     inner = m
+    try:
+        enabled = [str(x) for x in m.mutation_methods if "." not in str(x)]  # of the outermost wrapper
+    except Exception:
+        enabled = []
     while fam == "Wrapper":
         inner = inner.wrapped
         fam = family(inner)
         chain += ">" + type(inner).__name__
-    out.append((path, inner, fam or "?", chain))
+    out.append((path, inner, fam or "?", chain, enabled))
 
     def sub(name, child):
         out.extend(components(child, f"{path}.{name}" if path else name))
@@ -152,8 +156,8 @@ def flat_state(m: Any) -> Tuple[Dict[str, Any], Dict[str, Tuple[str, str]]]:
     """(flat constructor description, {path: (family, class chain)}) over all components."""
     flat: Dict[str, Any] = {}
     fams: Dict[str, Tuple[str, str, type]] = {}
-    for path, mod, fam, chain in components(m):
-        fams[path] = (fam, chain, type(mod))
+    for path, mod, fam, chain, enabled in components(m):
+        fams[path] = (fam, chain, type(mod), enabled)
         d = mod.init_dict
         for k, v in d.items():
             if k in _NESTED_KEYS:
@@ -480,9 +484,9 @@ class Subject:
         vec = spaces.Box(-1.0, 1.0, (5,), dtype=np.float32)
         seq = spaces.Box(-1.0, 1.0, (4, 3), dtype=np.float32)
         o = self.obs
-        if o in ("vector", "simba"):
+        if o in ("vector", "simba", "vector_cfg"):
             s = vec
-        elif o in ("image", "resnet"):
+        elif o in ("image", "resnet", "image_cfg"):
             s = img
         elif o in ("seq", "seq_rec"):
             s = seq
@@ -572,6 +576,13 @@ class Subject:
         kw = dict(o)
         if self.obs == "simba":
             kw["simba"] = True
+        if self.obs == "vector_cfg":
+            # the way users write it: only the fields they care about
+            kw.setdefault("encoder_config", {"hidden_size": [16, 16]})
+            kw.setdefault("head_config", {"hidden_size": [16]})
+        if self.obs == "image_cfg":
+            kw.setdefault("encoder_config", {"channel_size": [32], "kernel_size": [3], "stride_size": [2]})
+            kw.setdefault("head_config", {"hidden_size": [16]})
         if self.obs == "seq_rec":
             kw["recurrent"] = True
             kw["encoder_config"] = {"hidden_size": 32, "num_layers": 1, "min_hidden_size": 16, "max_hidden_size": 128}
@@ -1131,7 +1142,8 @@ def bfs(subject: Subject, on_edge: Callable[[Edge], None], prepare=None, on_clon
 
 def random_walk(subject: Subject, steps: int, seed: int, on_edge: Callable[[Edge], None], prepare=None, on_clone=None,
                 on_edge_b: Optional[Callable[[Edge], None]] = None, new_layer_prob: float = 0.3,
-                explicit_prob: float = 0.4, pattern_b_prob: float = 0.15, on_state=None) -> Dict[str, Any]:
+                explicit_prob: float = 0.4, pattern_b_prob: float = 0.15, on_state=None, star: bool = True,
+                star_explicit: int = 3) -> Dict[str, Any]:
     """Seeded chain of clone-and-mutate steps with the library's own sampling interface."""
     import torch
 
@@ -1141,7 +1153,8 @@ def random_walk(subject: Subject, steps: int, seed: int, on_edge: Callable[[Edge
     m = subject.make()
     if on_state is not None:
         on_state(m, None)
-    stats = {"steps": 0, "explicit": 0, "pattern_b": 0, "methods": {}, "distinct_states": 0, "aborted": None, "recoveries": 0}
+    stats = {"steps": 0, "explicit": 0, "pattern_b": 0, "methods": {}, "distinct_states": 0, "aborted": None, "recoveries": 0,
+             "star_edges": 0}
     seen = set()
 
     def pick(child):
@@ -1159,6 +1172,26 @@ def random_walk(subject: Subject, steps: int, seed: int, on_edge: Callable[[Edge
                 args = ch[int(rng.integers(len(ch)))]
                 stats["explicit"] += 1
         return name, args
+
+    # star: every advertised method once from the initial configuration (without arguments and with up to
+    # `star_explicit` explicit argument choices), so that no method depends on being sampled by the walk
+    if star:
+        try:
+            probe_methods = [str(x) for x in m.clone().mutation_methods]
+        except Exception as exc:
+            reraise_watchdog(exc)
+            probe_methods = []
+        for name in probe_methods:
+            calls: List[Dict[str, Any]] = [{}]
+            ch = arg_choices(m, name)
+            if ch:
+                idx = rng.permutation(len(ch))[:star_explicit]
+                calls += [ch[int(i)] for i in idx]
+            for args in calls:
+                e = drive_edge(subject, m, name, args, prepare, on_clone, step=-1)
+                on_edge(e)
+                stats["star_edges"] += 1
+        gc.collect()
 
     for step in range(steps):
         if step % 8 == 7:
@@ -1255,11 +1288,11 @@ MODULE_SUBJECTS = [
 ]
 
 NETWORKS = {
-    "QNetwork": (["vector", "image", "dict", "tuple", "seq", "seq_rec", "discrete", "simba", "resnet"], ["discrete", "multidiscrete"]),
+    "QNetwork": (["vector", "image", "dict", "tuple", "seq", "seq_rec", "discrete", "simba", "resnet", "vector_cfg"], ["discrete", "multidiscrete"]),
     "RainbowQNetwork": (["vector", "image", "dict", "tuple", "seq"], ["discrete"]),
     "ContinuousQNetwork": (["vector", "image", "dict", "tuple", "simba", "seq"], ["box"]),
-    "ValueNetwork": (["vector", "image", "dict", "tuple", "seq_rec", "simba", "discrete"], [None]),
-    "DeterministicActor": (["vector", "image", "dict", "tuple", "seq_rec", "simba"], ["box", "discrete"]),
+    "ValueNetwork": (["vector", "image", "dict", "tuple", "seq_rec", "simba", "discrete", "image_cfg"], [None]),
+    "DeterministicActor": (["vector", "image", "dict", "tuple", "seq_rec", "simba", "vector_cfg"], ["box", "discrete"]),
     "StochasticActor": (["vector", "image", "dict", "tuple", "seq_rec", "simba"], ["box", "discrete", "multidiscrete", "multibinary", "box_squash"]),
 }
 
